@@ -20,3 +20,8 @@ CLAIMED["C02"] = (
  "static analysis: method-set completeness + dominance rule for the gRPC identity override, interprocedural backward provenance (call-graph closed) of every per-client key lookup and every key-encryption context, must-reach value-flow for token/hash scoping",
  "Decides completely that the identity named inside a gRPC request is overwritten by the connection identity on every RPC (enumerated from the service interfaces, so a new RPC is picked up), that HTTP operations take the identity only from the connection, that every data-plane key lookup uses an identity that traces back to the request/connection/column owner, that every stored key is encrypted with owner+purpose context derived from the same id, and that token ids/storage contexts absorb the client id. That different ids yield different keys and that AEAD rejects a wrong key are delegated to Themis and not decided.",
  NOTE, "DESIGN.md §2 C02")
+
+CLAIMED["C05"] = (
+ "static analysis: CFG reachability/dominance rules on the proxy loops (verdict edge cannot reach the forwarding call within one iteration), verdict-propagation rule, return-value rules on the censor chain and its handlers, never-after rule for the pending-query queue, sibling rule over the pattern matchers",
+ "Decides that on both proxies the firewall's error edge cannot reach the call that forwards the packet before the next packet is read and that the client is answered, that every handleQueryPacket verdict is propagated to the loop, that AcraCensor.HandleQuery returns handler errors as is / stops on the first allow / rejects unparseable statements unless tolerated, that Allow/Deny consult all three rule kinds and DenyAll/AllowAll are constant, that no pending-response entry is queued for an unsent statement, and that every field-by-field pattern matcher can answer 'match'. Verdict invariance under formatting and pattern-language semantics depend on the parser and are not decided.",
+ NOTE, "DESIGN.md §2 C05")
